@@ -39,6 +39,9 @@ static Ref reference(const char *s) {
 extern "C" void harness(void) {
   char s[LEN + 1];
   for (int i = 0; i < LEN; i++) { s[i] = (char) __vf_nondet_uchar(); __vf_assume(s[i] != 0);
+#ifdef FIRST_BYTE
+    if (i == 0) __vf_assume(s[0] == (char) FIRST_BYTE);   // cube: the first input byte is fixed per query (all values of the alphabet are enumerated by the plan)
+#endif
 #ifdef SMALL_ALPHABET
     // quick tier: every string over a small alphabet that spells a known code pair (en, GB), both delimiters and an unknown letter
     __vf_assume(s[i] == 'e' || s[i] == 'n' || s[i] == 'G' || s[i] == 'B' || s[i] == '_' || s[i] == '.' || s[i] == 'x');
